@@ -105,10 +105,23 @@ fn expected_predict(case: &PredictCase, with_tag_blocks: bool, empty_tag_blocks:
 }
 
 fn matches(segs: &[Vec<String>], out: &str) -> bool {
-    match segs.split_first() {
-        None => out.is_empty(),
-        Some((alts, rest)) => alts.iter().any(|a| out.starts_with(a.as_str()) && matches(rest, &out[a.len()..])),
+    // set of positions reachable after each segment (iterative: streams have up to 70,000 lines)
+    let mut pos: std::collections::BTreeSet<usize> = [0usize].into_iter().collect();
+    for alts in segs {
+        let mut next = std::collections::BTreeSet::new();
+        for &p in &pos {
+            for a in alts {
+                if out.is_char_boundary(p) && out[p..].starts_with(a.as_str()) {
+                    next.insert(p + a.len());
+                }
+            }
+        }
+        if next.is_empty() {
+            return false;
+        }
+        pos = next;
     }
+    pos.contains(&out.len())
 }
 
 fn first_diff(segs: &[Vec<String>], out: &str) -> String {
@@ -541,6 +554,167 @@ fn eval_case_strategy() -> impl Strategy<Value = EvalCase> {
         })
 }
 
+/// The train program against the library pipeline it is documented to be (README: corpus lines
+/// -> [full-width normalisation] -> Trainer::add_example in file order -> train -> zstd): the
+/// harness performs the same steps through the library API on the very lines it wrote and
+/// compares what is comparable across processes (see below).
+pub fn test_train(case: &vcommon::train::TrainCase) -> TestResult {
+    use std::collections::BTreeSet;
+    use vaporetto::Trainer;
+    use vcommon::oracle::UNK;
+    let cfg = &case.cfg;
+    let line_break_in = |r: &RefSentence| {
+        r.chars.iter().any(|&c| c == '\n' || c == '\r')
+            || r.tags.iter().flatten().flatten().any(|t| t.contains('\n') || t.contains('\r'))
+    };
+    if case.corpus.iter().chain(&case.tag_dict).any(line_break_in) {
+        return Ok(Info::new(false).class(true, "skipped:line-break-inside-a-sentence"));
+    }
+    let no_norm = cfg.dictn % 2 == 0;
+    let crlf = cfg.solver % 2 == 0;
+    let eol = if crlf { "\r\n" } else { "\n" };
+    let (mut tok, mut part, mut dict): (Vec<String>, Vec<String>, Vec<String>) = (vec![], vec![], vec![]);
+    for r in &case.corpus {
+        if r.labels.contains(&UNK) {
+            part.push(oracle::ref_write_partial(r));
+        } else {
+            tok.push(oracle::ref_write_tokenized(r));
+        }
+    }
+    for w in &cfg.dict {
+        let cs: Vec<char> = w.chars().collect();
+        if !cs.is_empty() {
+            dict.push(oracle::ref_write_tokenized(&RefSentence { labels: vec![0; cs.len() - 1], tags: vec![vec![]; cs.len()], n_tags: 0, chars: cs }));
+        }
+    }
+    for r in &case.tag_dict {
+        let mut r = r.clone();
+        r.labels.iter_mut().for_each(|l| if *l == UNK { *l = WB });
+        dict.push(oracle::ref_write_tokenized(&r));
+    }
+    if tok.is_empty() && part.is_empty() {
+        return Ok(Info::new(false).class(true, "skipped:empty-corpus"));
+    }
+    let dir = util::Scratch::new("c20t");
+    let fmodel = dir.path("m.zst");
+    let mut args: Vec<String> = vec![];
+    for (flag, name, lines) in [("--tok", "c.tok", &tok), ("--part", "c.part", &part), ("--dict", "d.txt", &dict)] {
+        if !lines.is_empty() {
+            let path = dir.path(name);
+            let content: String = lines.iter().map(|l| format!("{l}{eol}")).collect();
+            std::fs::write(&path, content).map_err(|e| e.to_string())?;
+            args.push(flag.into());
+            args.push(path.to_string_lossy().to_string());
+        }
+    }
+    for (flag, v) in [("--charw", cfg.charw), ("--charn", cfg.charn), ("--typew", cfg.typew), ("--typen", cfg.typen), ("--dictn", cfg.dictn.max(1)), ("--solver", cfg.solver % 8)] {
+        args.push(flag.into());
+        args.push(v.to_string());
+    }
+    if no_norm {
+        args.push("--no-norm".into());
+    }
+    args.push("--model".into());
+    args.push(fmodel.to_string_lossy().to_string());
+    let r = util::run_tool("train", &args, b"")?;
+    ensure!(!r.stderr.contains("panicked"), "train crashed: {}", r.stderr.lines().find(|l| l.contains("panicked")).unwrap_or(""));
+    // the same pipeline through the library
+    let load = |line: &str, partial: bool| -> Result<Sentence<'static, 'static>, String> {
+        let s = if partial { Sentence::from_partial_annotation(line) } else { Sentence::from_tokenized(line) }.map_err(|e| e.to_string())?;
+        if no_norm {
+            return Ok(s);
+        }
+        let mut n = Sentence::from_raw(KyteaFullwidthFilter.filter(s.as_raw_text())).map_err(|e| e.to_string())?;
+        n.boundaries_mut().clone_from_slice(s.boundaries());
+        n.reset_tags(s.n_tags());
+        n.tags_mut().clone_from_slice(s.tags());
+        Ok(n)
+    };
+    let library = (|| -> Result<Vec<u8>, String> {
+        let mut sents = vec![];
+        for l in &tok {
+            sents.push(load(l, false)?);
+        }
+        for l in &part {
+            sents.push(load(l, true)?);
+        }
+        let mut words = BTreeSet::new();
+        let mut tag_dictionary = vec![];
+        for l in &dict {
+            let s = load(l, false)?;
+            for t in s.iter_tokens() {
+                words.insert(t.surface().to_string());
+            }
+            tag_dictionary.push(s);
+        }
+        let mut trainer = Trainer::new(cfg.charw, cfg.charn, cfg.typew, cfg.typen, words.into_iter().collect(), cfg.dictn.max(1), &tag_dictionary)
+            .map_err(|e| e.to_string())?;
+        for s in &sents {
+            trainer.add_example(s);
+        }
+        let model = util::train_deterministic(|| trainer.train(0.01, 1.0, vcommon::train::solver_of(cfg.solver))).map_err(|e| e.to_string())?;
+        model.to_vec().map_err(|e| e.to_string())
+    })();
+    let info = Info::new(!part.is_empty() && !dict.is_empty())
+        .class(no_norm, "--no-norm")
+        .class(crlf, "CRLF-files")
+        .class(!part.is_empty(), "--part")
+        .class(!dict.is_empty(), "--dict");
+    // What can be compared across two processes: the example order inside the trainer depends
+    // on a per-process hash seed, so liblinear's solution - and with it every weight - differs
+    // in the last digits from run to run. Discrete content does not: window sizes, the
+    // dictionary word list, the tag models' candidate lists, and (for the L2-regularised solvers,
+    // whose optimum is unique) which n-grams carry a clearly non-zero weight.
+    let invalid_argument = |e: &str| e.contains("InvalidArgument");
+    match (r.code == Some(0), library) {
+        (false, Err(_)) => Ok(info.class(true, "both-fail")),
+        (false, Ok(_)) => {
+            let last = r.stderr.lines().last().unwrap_or("").to_string();
+            ensure!(
+                !invalid_argument(&last),
+                "train rejects its input ({last}) but the library pipeline accepts the same files (args {:?})",
+                &args[..args.len() - 2]
+            );
+            Ok(info.class(true, "train-fails-in-the-learner"))
+        }
+        (true, Err(e)) => {
+            ensure!(!invalid_argument(&e), "train writes a model but the library pipeline rejects the same files: {e}");
+            Ok(info.class(true, "library-fails-in-the-learner"))
+        }
+        (true, Ok(lib)) => {
+            let raw = util::zstd_decode(&std::fs::read(&fmodel).map_err(|e| format!("no model file: {e}"))?)?;
+            let a = ModelSpec::from_bytes(&raw).map_err(|e| format!("model written by train: {e}"))?.0;
+            let b = ModelSpec::from_bytes(&lib)?.0;
+            ensure_eq!((a.char_window, a.type_window), (b.char_window, b.type_window), "window sizes of the model written by train vs the library pipeline");
+            ensure_eq!(
+                a.dict.iter().map(|d| (&d.word, d.weights.len())).collect::<Vec<_>>(),
+                b.dict.iter().map(|d| (&d.word, d.weights.len())).collect::<Vec<_>>(),
+                "dictionary words of the model written by train vs the library pipeline"
+            );
+            let tm = |m: &ModelSpec| -> BTreeSet<(String, Vec<Vec<String>>)> { m.tag_models.iter().map(|t| (t.token.clone(), t.tags.clone())).collect() };
+            ensure_eq!(tm(&a), tm(&b), "tag models (token, candidate lists) of the model written by train vs the library pipeline");
+            let l2 = matches!(cfg.solver % 8, 0 | 1 | 2 | 3 | 7);
+            if l2 {
+                let maxw = |m: &ModelSpec| m.char_ngrams.iter().chain(&[]).flat_map(|g| g.weights.iter()).chain(m.type_ngrams.iter().flat_map(|g| g.weights.iter())).map(|w| w.abs()).max().unwrap_or(0).max(m.bias.abs());
+                for (x, y, xn, yn) in [(&a, &b, "train", "the library pipeline"), (&b, &a, "the library pipeline", "train")] {
+                    let thr = (maxw(x) / 10).max(50);
+                    for g in &x.char_ngrams {
+                        if g.weights.iter().any(|w| w.abs() >= thr) {
+                            ensure!(y.char_ngrams.iter().any(|h| h.ngram == g.ngram), "character n-gram {:?} has weights {:?} in the model of {xn} and is missing from the model of {yn}", g.ngram, g.weights);
+                        }
+                    }
+                    for g in &x.type_ngrams {
+                        if g.weights.iter().any(|w| w.abs() >= thr) {
+                            ensure!(y.type_ngrams.iter().any(|h| h.ngram == g.ngram), "type n-gram {:?} has weights {:?} in the model of {xn} and is missing from the model of {yn}", g.ngram, g.weights);
+                        }
+                    }
+                }
+            }
+            Ok(info.class(true, "models-compared").class(l2, "n-gram-sets-compared(L2 solver)").class(raw == lib, "models-identical-bytes"))
+        }
+    }
+}
+
 pub fn run(rep: &mut Report) {
     let n = rep.n(6000, 100000);
     rep.run_prop(
@@ -559,12 +733,12 @@ rejected line between accepted ones and a line the normaliser changes.",
     );
     rep.run_enum(
         "long-streams",
-        "deterministic large inputs through the real predict binary: 3,000 short lines (every \
+        "deterministic large inputs through the real predict binary: 3,000 short lines, a line of 70,000 and one of 65,536 characters, 70,000 lines (every \
 10th empty, every 37th containing NUL), one 30,000-character line, with --scores / --predict-tags \
 --tag-scores; same oracle",
         false,
-        (0..3u8).map(|k| {
-            let mc = crate::checks::c14::large_model(&crate::checks::c14::LargeCase { n_tag_models: 60, n_char_ngrams: 200, n_words: 20, n_long_words: 0 });
+        (0..5u8).map(|k| {
+            let mc = crate::checks::c14::large_model(&crate::checks::c14::LargeCase { n_tag_models: 60, n_char_ngrams: 200, n_words: 20, n_long_words: 0, long_text: 0 });
             let ch = |i: usize| char::from_u32(0x4E00 + (i % 120) as u32).unwrap();
             let lines: Vec<String> = match k {
                 0 | 1 => (0..3000usize)
@@ -578,20 +752,55 @@ rejected line between accepted ones and a line the normaliser changes.",
                         }
                     })
                     .collect(),
-                _ => vec![(0..30_000).map(|i| if i % 50 == 7 { '1' } else { ch(i * 7 + i / 13) }).collect(), "短".into()],
+                2 => vec![(0..30_000).map(|i| if i % 50 == 7 { '1' } else { ch(i * 7 + i / 13) }).collect(), "短".into()],
+                // a line above 65,535 characters (and one of exactly 65,536) between short ones
+                3 => vec![
+                    "短".into(),
+                    (0..70_000).map(|i| if i % 50 == 7 { 'ｱ' } else if i % 61 == 3 { 'a' } else { ch(i * 7 + i / 13) }).collect(),
+                    (0..65_536).map(|i| ch(i * 5 + i / 17)).collect(),
+                    "a".into(),
+                ],
+                // more than 65,535 lines
+                _ => (0..70_000usize).map(|i| if i % 1000 == 999 { String::new() } else { [ch(i), ch(i / 7)].iter().collect() }).collect(),
             };
             PredictCase {
                 spec: mc.spec,
                 lines,
                 no_norm: k == 1,
                 predict_tags: k != 1,
-                scores: k != 0,
-                tag_scores: k == 0,
+                scores: k != 0 && k != 4,
+                tag_scores: k == 0 || k == 3,
                 wsconst: if k == 2 { vec!['D', 'G'] } else { vec![] },
             }
         }),
         test_predict,
     );
+    liblinear::toggle_liblinear_stdout_output(false);
+    let n = rep.n(1500, 40000);
+    {
+        let _guard = util::redirect_output("/verif/target/C20-train-output.log");
+        rep.run_prop(
+            "train",
+            "the real train binary on generated corpus / partial-annotation / dictionary files (LF \
+and CR LF, with and without --no-norm, all size flags and solvers) against the same pipeline \
+performed through the library on the very same lines (parse, normalise, Trainer::add_example in \
+file order, train with the program's defaults): same window sizes, dictionary word list and tag \
+models (token, candidate lists); for the L2-regularised solvers every n-gram with a clearly \
+non-zero weight in one model exists in the other; input rejected by one side is rejected by the \
+other (weights themselves are not compared: the order of features inside an example depends on a \
+per-process hash seed, so liblinear's solution differs in the last digits between processes). \
+Non-trivial = --part and --dict files present.",
+            n,
+            || {
+                use proptest::prelude::*;
+                prop_oneof![
+                    1 => vcommon::train::train_case(vcommon::train::TrainGenCfg { max_sentences: 6, max_len: 8, tame: false, tag_dict: true, tag_focus: false }),
+                    1 => vcommon::train::train_case(vcommon::train::TrainGenCfg { max_sentences: 8, max_len: 8, tame: false, tag_dict: true, tag_focus: true }),
+                ]
+            },
+            test_train,
+        );
+    }
     let n = rep.n(3000, 40000);
     rep.run_prop(
         "evaluate",
